@@ -126,6 +126,9 @@ func (h hostileReq) buildBody() (body []byte, mustRefuse bool, class string) {
 		return b[:cut], true, "truncated-json"
 	case "unterminated":
 		return []byte(`{"secret":"JBSWY3DPEHPK3PXP","code":"12`), true, "unterminated-string"
+	case "trailing":
+		// a complete, valid request object followed by more bytes: not a JSON text any more
+		return append(enc(base), h.Value...), true, "trailing-data"
 	case "raw":
 		var probe any
 		valid := json.Unmarshal(h.Raw, &probe) == nil
@@ -371,7 +374,7 @@ func checkC19(c c19Case) verdict {
 			if status < 400 && (syntacticClass(class) || !successPayload(known, rb)) {
 				return bad(true, labels, "request %d: POST %s with a %s body answered %d %s; the status claims success but the answer is not the endpoint's result (body %s)", i, h.Path, class, status, trunc(string(rb), 120), trunc(string(body), 200))
 			}
-		case known != "" && h.Method == "POST" && known != h.Ep && (class == "empty-body" || class == "truncated-json" || class == "unterminated-string" || class == "raw-invalid-json" || class == "nested-arrays"):
+		case known != "" && h.Method == "POST" && known != h.Ep && syntacticClass(class):
 			if status < 400 {
 				return bad(true, labels, "request %d: POST %s with a syntactically broken body (%s) answered %d", i, h.Path, class, status)
 			}
@@ -395,7 +398,7 @@ func checkC19(c c19Case) verdict {
 
 func syntacticClass(class string) bool {
 	switch class {
-	case "empty-body", "truncated-json", "unterminated-string", "raw-invalid-json", "nested-arrays":
+	case "empty-body", "truncated-json", "unterminated-string", "raw-invalid-json", "nested-arrays", "trailing-data":
 		return true
 	}
 	return false
@@ -451,7 +454,7 @@ func trunc(s string, n int) string {
 }
 
 var c19Main = newPart("C19", "hostile-histories",
-	"rapid: histories of 2..16 requests to the REAL server binary: methods {GET,POST,PUT,DELETE,HEAD,PATCH,OPTIONS} x paths (ten endpoints, /, /docs..., unknown, 4 KiB long, percent-encoded, doubled/trailing slashes, case variants) x bodies from a JSON mutation grammar over each endpoint's well-formed body (empty, truncated at any byte, unterminated string, arbitrary bytes, a dropped field, every field x every JSON type incl. null/bool/array/object/number where a string is expected, numbers at +-2^53, +-2^63, 2^64, 1e400, -1, 1.5, numbers drawn from the whole JSON number grammar (zero and non-zero mantissas of up to 1000 digits, fractions, exponents up to +-2^63 and beyond), skew/period/counter/timestamp extremes, blank and 1 MiB strings, contradictory suites incl. blank raw_suite, nested arrays, bodies at and over the 1 MiB limit), every 3rd..5th request a well-formed probe whose answer is checked against the reference; invariant over the history: every request gets a complete parseable HTTP response within 5 s (one lone retry with 15 s), syntactically broken bodies on the POST endpoints, wrong methods (other than HEAD / OPTIONS) and plain unknown paths get a failure status (>= 400); wrongly typed / out-of-range / blank / missing-required fields get a failure status or, if the service handles them, the endpoint's actual result (never an error description under a success status), probes 200 with the RFC value, the process is alive and reports no unrecovered panic; non-trivial = history with at least one non-well-formed request",
+	"rapid: histories of 2..16 requests to the REAL server binary: methods {GET,POST,PUT,DELETE,HEAD,PATCH,OPTIONS} x paths (ten endpoints, /, /docs..., unknown, 4 KiB long, percent-encoded, doubled/trailing slashes, case variants) x bodies from a JSON mutation grammar over each endpoint's well-formed body (empty, truncated at any byte, unterminated string, a valid object followed by trailing bytes, arbitrary bytes, a dropped field, every field x every JSON type incl. null/bool/array/object/number where a string is expected, numbers at +-2^53, +-2^63, 2^64, 1e400, -1, 1.5, numbers drawn from the whole JSON number grammar (zero and non-zero mantissas of up to 1000 digits, fractions, exponents up to +-2^63 and beyond), skew/period/counter/timestamp extremes, blank and 1 MiB strings, contradictory suites incl. blank raw_suite, nested arrays, bodies at and over the 1 MiB limit), every 3rd..5th request a well-formed probe whose answer is checked against the reference; invariant over the history: every request gets a complete parseable HTTP response within 5 s (one lone retry with 15 s), syntactically broken bodies on the POST endpoints, wrong methods (other than HEAD / OPTIONS) and plain unknown paths get a failure status (>= 400); wrongly typed / out-of-range / blank / missing-required fields get a failure status or, if the service handles them, the endpoint's actual result (never an error description under a success status), probes 200 with the RFC value, the process is alive and reports no unrecovered panic; non-trivial = history with at least one non-well-formed request",
 	checkC19)
 
 var jsonValues = []string{"null", "true", "false", "0", "1", "-1", "1.5", "1e3", "1e400", "-1e400", "9007199254740992", "-9007199254740993", "9223372036854775807", "9223372036854775808", "-9223372036854775808", "-9223372036854775809",
@@ -488,7 +491,7 @@ func drawHostile(t *rapid.T) hostileReq {
 	h.KeepAlive = rapid.Bool().Draw(t, "keepAlive")
 	fields := sortedFieldNames(h.Ep)
 	h.Field = rapid.SampledFrom(fields).Draw(t, "field")
-	h.Mutation = rapid.SampledFrom([]string{"none", "empty", "truncate", "unterminated", "raw", "drop", "type", "type", "type", "type", "contradictory", "big-string", "nested", "extreme", "extreme"}).Draw(t, "mutation")
+	h.Mutation = rapid.SampledFrom([]string{"none", "empty", "truncate", "unterminated", "raw", "drop", "type", "type", "type", "type", "contradictory", "big-string", "nested", "extreme", "extreme", "trailing"}).Draw(t, "mutation")
 	switch h.Mutation {
 	case "truncate":
 		h.Cut = rapid.IntRange(0, 400).Draw(t, "cut")
@@ -498,6 +501,8 @@ func drawHostile(t *rapid.T) hostileReq {
 		} else {
 			h.Raw = rapid.SliceOfN(rapid.Byte(), 0, 60).Draw(t, "rawBytes")
 		}
+	case "trailing":
+		h.Value = rapid.SampledFrom([]string{"}", "]", "}}", "}}}} not json <<<", "] x", " x", "{}", "[]", ",", "null", "\"", "\x00", "{\"secret\":\"A\"}", "//c", "\n\n1"}).Draw(t, "trail")
 	case "type":
 		if rapid.IntRange(0, 3).Draw(t, "valueKind") == 0 {
 			h.Value = drawJSONNumber(t)
@@ -554,7 +559,7 @@ func TestC19_Hostile(t *testing.T) {
 		gap := rapid.IntRange(3, 5).Draw(t, "gap")
 		for i := 0; i < n; i++ {
 			if i%gap == gap-1 {
-				p := restStep{Ep: rapid.SampledFrom([]string{"hotp-gen", "totp-gen", "ocra-gen", "hotp-val"}).Draw(t, "probeEp"), Key: rapid.SliceOfN(rapid.Byte(), 1, 30).Draw(t, "probeKey"), Sp: gen.Spelling{Pad: 1}}
+				p := restStep{Ep: rapid.SampledFrom([]string{"hotp-gen", "totp-gen", "ocra-gen", "hotp-val", "totp-val", "totp-val"}).Draw(t, "probeEp"), Key: rapid.SliceOfN(rapid.Byte(), 1, 30).Draw(t, "probeKey"), Sp: gen.Spelling{Pad: 1}}
 				p.HasCtr, p.Ctr = true, rapid.Uint64Range(20, 1<<40).Draw(t, "probeCtr")
 				p.HasTS, p.TS = true, int64(rapid.Uint64Range(1, 1<<40).Draw(t, "probeTS"))
 				p.RawName = "OCRA-1:HOTP-SHA256-8:QN10"
